@@ -86,6 +86,24 @@ pub fn pool(seed: u64) -> Vec<Call> {
         v.push(Call::Children { id: *id, res: None });
         v.push(Call::GetResolution(*id));
     }
+    // the same cell with different options: a result must depend on ALL of its arguments and on nothing else
+    for (i, id) in cells.iter().enumerate().skip(1).take(12) {
+        for segments in [None, Some(1), Some(3), Some(16)] {
+            for closed in [true, false] {
+                if i % 2 == 0 || segments.is_some() {
+                    v.push(Call::Boundary { id: *id, closed, segments });
+                }
+            }
+        }
+        for r in [0, 1, 2] {
+            if let Some(c) = decode(*id) {
+                v.push(Call::Parent { id: *id, res: Some((c.res - r).max(-1)) });
+                if c.res + r <= MAX_RES {
+                    v.push(Call::Children { id: *id, res: Some(c.res + r) });
+                }
+            }
+        }
+    }
     for r in [-1, 0, 1, 7, 29] {
         v.push(Call::NumCells(r));
         v.push(Call::CellArea(r));
